@@ -42,6 +42,10 @@ for line in [l for l in out.strip().split("\n") if l]:
     if not subj.startswith("fix:"):
         print("NOT a fix commit, skipped:", line)
         continue
+    _, already = sh(["git", "-C", R, "log", "--format=%h", "--fixed-strings", "--grep", subj, "main"])
+    if already.strip():
+        mapping[h] = already.strip().split("\n")[0]
+        continue   # cherry-picked by an earlier integration
     rc, o = sh(["git", "-C", R] + GIT_ID + ["cherry-pick", h], check=False)
     if rc != 0:
         print(o)
